@@ -91,6 +91,29 @@ def rule_r1(F, rep):
         if any(n.endswith("Iterator::rev") or "sort" in n for n in names):
             ok = False
             detail["reordered"] = True
+    if len(chains) == 0:
+        # no `a.chain(b)`: the candidates are built at several places — the importing file's directory must be tried at a point
+        # from which the library directories are still ahead, and never the other way round
+        succ0 = body.succ_map()
+        joins = []
+        for bb, t in body.calls():
+            if (callee_name(t) or "") == "<std::path::Path>::join":
+                fa = fields_of(deep_origins(P, t["xs"][0]), SI)
+                joins.append((bb, fa))
+        A = [bb for bb, fa in joins if fa == {"source_paths"}]
+        B = [bb for bb, fa in joins if fa == {"search_paths"}]
+        other = [sorted(fa) for bb, fa in joins if fa not in ({"source_paths"}, {"search_paths"})]
+        detail = {"importer_dir_candidates": len(A), "library_candidates": len(B), "other": other}
+        ok = bool(A) and bool(B) and not other
+        for a in A:
+            for b in B:
+                if a in cfg.reachable(succ0, [b]) or b not in cfg.reachable(succ0, [a]):
+                    ok = False
+                    detail["order"] = "a library directory can be tried before the importing file's directory"
+        names = {callee_name(t2) or "" for _, t2 in body.calls()}
+        if any(n.endswith("Iterator::rev") or "sort" in n for n in names):
+            ok = False
+            detail["reordered"] = True
     rep.ob(R, "find_import|candidate-order", ok, detail)
     if not ok:
         rep.violation(R, "%s|candidate-order" % fn.q, "candidate directories are not `importing file's directory` followed by "
@@ -242,20 +265,38 @@ def rule_r2(F, rep):
         rep.violation(R, "%s|cache-hit" % fn.q, "a cache hit still reads or loads the file again", fn.loc)
 
 
+
+def ok_payload_calls(F, fn, depth=0):
+    """for every way `fn` returns Ok(payload): the set of functions the payload is computed by.  A helper that did not exist on
+    the reference tree and whose result is returned as is counts as part of `fn` (its own Ok sites are listed instead)."""
+    out = []
+    P = prov.Prov(F, fn.body)
+    for bb, si, s in fn.body.assigns():
+        rv = s["rv"]
+        if rv["k"] == "agg" and rv.get("adt") == RESULT and rv["v"] == "Ok" and not s["p"]["p"] and s["p"]["l"] == 0:
+            org = deep_origins(P, rv["xs"][0])
+            out.append({o[1] for o in org if o[0] == "call"})
+    if depth < 3:
+        for bb, t in fn.body.calls():
+            d = t["dst"]
+            f = t["f"]
+            if d["l"] == 0 and not d["p"] and f.get("rlocal") and f.get("r") and F.is_new_fn(f["r"]):
+                g = F.fn_opt(f["r"])
+                if g is not None and g.body is not None:
+                    out += ok_payload_calls(F, g, depth + 1)
+    return out
+
+
 def rule_r3(F, rep):
     R = rep.rule("C13.R3", "importbin returns exactly the bytes read, importstr their lossy UTF-8 decoding, bytes become "
                  "numbers by u8 -> f64, and std.thisFile is the display form of the path the file was loaded by")
     for name, want in (("import_bin", None), ("import_str", "alloc::string::String::from_utf8_lossy")):
         fn = F.fn("<%s as rsjsonnet_lang::program::Callbacks>::%s" % (SI, name))
         rep.fn(fn)
-        P = prov.Prov(F, fn.body)
         ok = False
         detail = None
-        for bb, si, s in fn.body.assigns():
-            rv = s["rv"]
-            if rv["k"] == "agg" and rv.get("adt") == RESULT and rv["v"] == "Ok" and not s["p"]["p"] and s["p"]["l"] == 0:
-                org = deep_origins(P, rv["xs"][0])
-                calls = {o[1] for o in org if o[0] == "call"}
+        for calls in ok_payload_calls(F, fn):
+            if True:
                 detail = sorted(calls)
                 if name == "import_bin":
                     ok = calls == {"std::fs::read"} or calls == {"std::fs::read", "<%s>::find_import" % SI}
@@ -372,9 +413,9 @@ def rule_r4(F, rep):
 
 
 def run(F, rep, tier):
-    rule_r1(F, rep)
-    rule_r2(F, rep)
-    rule_r3(F, rep)
-    rule_r4(F, rep)
+    rep.attempt(rule_r1, F, rep)
+    rep.attempt(rule_r2, F, rep)
+    rep.attempt(rule_r3, F, rep)
+    rep.attempt(rule_r4, F, rep)
     rep.assume("canonicalize / exists / symlink semantics of the file system are trusted; import cycles are not decided")
     return EXPLANATION
